@@ -206,6 +206,20 @@ def main(argv=None):
                 broken_obligations.append(f"theorems without Print Assumptions: {pa['missing_print']}")
             discharged = min(pa["closed"], obligations) if not bad_ax else 0
 
+    # 1b. thorough tier: independent re-check of the compiled theorems (coqchk) + its axiom summary
+    coqchk_summary = None
+    if args.tier == "thorough" and ok_build:
+        modname = "NTProp." + Path(prop.coq_prop).stem
+        p = sh(["timeout", "1500", "coqchk", "-silent", "-o", "-Q", "theories", "NT", "-Q", "gen", "NTGen", "-Q", "Properties", "NTProp", modname], cwd=COQ)
+        txt = p.stdout + p.stderr
+        m = re.search(r"\* Axioms:(.*?)\n\s*\n\* Constants", txt, re.S)
+        axs = " ".join((m.group(1) if m else "?").split())
+        coqchk_summary = dict(rc=p.returncode, axioms=axs)
+        if p.returncode != 0:
+            broken_obligations.append("coqchk rejects the compiled development: " + txt[-400:])
+        elif axs != "<none>":
+            broken_obligations.append("coqchk -o reports axioms: " + axs[:300])
+
     # 2. correspondence + oracle on corpus, enumerated and random cases
     rng = random.Random(seed)
     cases: list[Case] = []
@@ -324,7 +338,7 @@ def main(argv=None):
             obligations=max(obligations, 1), discharged=discharged,
             checker_cmd=f"cd coq && make {target} && coqc {prop.coq_prop}  (Print Assumptions under every theorem); bin/check {pid}",
             trusted_base=TRUSTED_BASE + getattr(prop, "trusted", []),
-            theorems=pa.get("theorems", []), axioms_reported=pa.get("axioms", []),
+            theorems=pa.get("theorems", []), axioms_reported=pa.get("axioms", []), coqchk=coqchk_summary,
             evaluations=len(cases), distinct_nontrivial=len(keys), rule=prop.rule, samples=samples,
             model_disagreements=len(model_fail_idx), oracle_failures=len(oracle_fail),
             known_finding_hits=seen_known, distribution=stats,
